@@ -101,6 +101,50 @@ class LineElem:
         return AbsLine(0)
 
 
+class SChar(Sym):
+    """One character of a text of symbolic length (its code point)."""
+    __slots__ = ('code',)
+
+    def __init__(self, code):
+        self.code = code
+
+
+class SCharSeq(Sym):
+    """A text of symbolic length: character i (0 <= i < n) is arr[off + i].  Immutable; slices
+    share the array (they are views), concatenation stores behind the view."""
+    __slots__ = ('arr', 'off', 'n')
+
+    def __init__(self, arr, off, n):
+        self.arr, self.off, self.n = arr, off, n
+
+    def length(self):
+        return mk_int(T(self.n))
+
+    def char(self, i):
+        return SChar(mk_int(z3.Select(self.arr, T(self.off) + T(i))))
+
+    def getitem(self, it, idx):
+        from .interp import PyRaise
+        n = self.length()
+        i = it.norm_index(idx, n)
+        return self.char(i)
+
+    def getslice(self, it, lo, hi, st):
+        if st is not None or not all(x is None or (isinstance(x, int) and x >= 0) for x in (lo, hi)):
+            raise EngineError('slice of a symbolic-length text with these bounds')
+        n = T(self.n)
+        a = z3.IntVal(0) if lo is None else z3.If(n < lo, n, z3.IntVal(lo))
+        b = n if hi is None else z3.If(n < hi, n, z3.IntVal(hi))
+        return SCharSeq(self.arr, z3.simplify(T(self.off) + a),
+                        z3.simplify(z3.If(b - a > 0, b - a, 0)))
+
+    def concat(self, lit):
+        arr, n = self.arr, T(self.n)
+        for k, ch in enumerate(lit):
+            arr = z3.Store(arr, T(self.off) + n + k, z3.IntVal(ord(ch)))
+        return SCharSeq(arr, self.off, z3.simplify(n + len(lit)))
+
+
 class JDump(Sym):
     """json.dumps(v): the JSON text of the value v (assumed law: json.loads(json.dumps(v)) == v
     for JSON-able v with str keys; the text contains no line break since indent=None)."""
